@@ -326,7 +326,17 @@ class Run:
         for i, f in enumerate(FILTERS):
             out[f"find{i}"] = sorted(j for j in M if match(M[j], f))
         out["contains"] = {j: j in M for j in sorted(self.ever)}
+        # open by abbreviated id: decided by the workspace alone
+        pre = {}
+        for p in self._prefixes():
+            cand = [x for x in M if x.startswith(p)]
+            pre[p] = cand[0] if len(cand) == 1 else "LookupError" if cand else "KeyError"
+        out["prefix"] = pre
         return out
+
+    def _prefixes(self):
+        """Abbreviations asked for: 1, 2 and 3 leading characters of every id that ever existed."""
+        return sorted({j[:L] for j in self.ever for L in (1, 2, 3)})
 
     def _view(self, label, proj=None):
         from model.canon import canon
@@ -340,6 +350,15 @@ class Run:
             for i, f in enumerate(FILTERS):
                 out[f"find{i}"] = sorted(j.id for j in proj.find_jobs(f))
             out["contains"] = {j: proj.open_job(self.ever[j]) in proj for j in sorted(self.ever)}
+            pre = {}
+            for p in self._prefixes():
+                try:
+                    pre[p] = proj.open_job(id=p).id
+                except KeyError:
+                    pre[p] = "KeyError"
+                except LookupError:
+                    pre[p] = "LookupError"
+            out["prefix"] = pre
             return out
         except Mismatch:
             raise
